@@ -1139,8 +1139,10 @@ impl<'a> Model<'a> {
                 Ok(Ok(Flow::Next))
             }
             StmtKind::OnErrorGoto0 => {
+                // also inside a handler: "after ON ERROR GOTO 0 ... the error ends the
+                // program" - the handler goes on to its RESUME, later errors are fatal
                 if self.in_handler > 0 {
-                    return Err(Stop::Early("ON ERROR GOTO 0 inside a handler".into()));
+                    self.probe("on_error_goto_0_inside_handler");
                 }
                 self.probe("on_error_goto_0");
                 self.handler = HandlerMode::Off;
